@@ -204,6 +204,31 @@ def run_extraction(ex: Extraction, report):
             if missing:
                 raise LostAnchor("fields %s not found in %s %s" % (missing, kind, name))
             rec["rewrites"].append({"rule": "R5 field projection", "kept": keep, "dropped": list(reversed(dropped))})
+    elif ex.mode == "sql":
+        # boolean fragment of a literal SQL string inside a function: text strictly between `from` and `to`
+        from . import sqlpred
+        s0, o0, c0 = _locate(ex, src, msk)
+        seg = src[o0:c0]
+        mf = None
+        for k, m in enumerate(re.finditer(ex.args["from"], seg)):
+            if k + 1 == int(ex.args.get("from_nth", 1)):
+                mf = m
+                break
+        if not mf:
+            raise LostAnchor("sql from=/%s/ not found in fn %s" % (ex.args["from"], ex.args.get("fn")))
+        mt = re.compile(ex.args["to"]).search(seg, mf.end())
+        if not mt:
+            raise LostAnchor("sql to=/%s/ not found in fn %s" % (ex.args["to"], ex.args.get("fn")))
+        a0, b0 = o0 + mf.end(), o0 + mt.start()
+        pred = src[a0:b0]
+        params = ex.args["params"].split(",") if "params" in ex.args else None
+        text, vars_ = sqlpred.translate(pred, ex.args["name"], params)
+        line = src.count("\n", 0, a0) + 1
+        t = SrcText(text, [line] * len(text))
+        rec["item"] = "SQL predicate in fn %s" % ex.args.get("fn")
+        rec["lines"] = [line, src.count("\n", 0, b0) + 1]
+        rec["sql_text"] = " ".join(pred.split())
+        rec["rewrites"].append({"rule": "SQL boolean fragment -> Verus spec fn over int (vx/sqlpred.py)", "params": vars_})
     elif ex.mode == "const":
         m = re.search(r"\b(pub\s+)?(const|static)\s+%s\b" % re.escape(ex.args["name"]), msk)
         if not m:
